@@ -64,6 +64,8 @@ def fam_list():
     # adaptive linear bias, reweighted histogram of accelerated MD (the engine supplies the weight), thermodynamic integration
     # with the previous-step force convention
     F.append(("alb", d1 + "alb {\n colvars d1\n centers 4.0\n updateFrequency 4\n forceRange 1.0\n rateMax 0.5\n}\n", "off"))
+    # soft force range: range (and whatever follows it) grows during the run once the coupling constant exceeds it
+    F.append(("alb_soft", d1 + "alb {\n colvars d1\n centers 4.0\n updateFrequency 4\n forceRange 0.01\n rateMax 0.004\n hardForceRange off\n}\n", "off"))
     F.append(("alb_2d", d1 + d2 + "alb {\n colvars d1 d2\n centers 4.0 1.5\n updateFrequency 4\n forceRange 1.0 2.0\n rateMax 0.5 0.5\n}\n", "off"))
     F.append(("histrest", "colvar {\n  name hv\n  distancePairs {\n    group1 { atomNumbers 1 3 }\n    group2 { atomNumbers 2 4 }\n  }\n}\n"
               "histogramRestraint {\n colvars hv\n lowerBoundary 0.0\n upperBoundary 40.0\n width 5.0\n gaussianSigma 2.0\n"
